@@ -265,7 +265,11 @@ fn main() {
                 }
             }
         }
-        stat::reset_resource_map();
+        if common::catch(stat::reset_resource_map).is_err() || rep.violations.last().map(|v| v.sig.starts_with("panic")).unwrap_or(false) {
+            // a panic under a global lock leaves this process unusable: report what was found and stop the shard
+            rep.notes.push("stopped after a panic inside the library (global state poisoned)".into());
+            rep.finish();
+        }
     }
     rep.finish()
 }
